@@ -243,17 +243,28 @@ def enumerate_variant(run, model, exe, variant, scen_list, pairs, stats, env=Non
                           "case: fa %s 0 0\nverdict: %s\n%s\n" % (sc, v0, out[0][:3000]),
                           tag="cleanbad_%s_%s" % (variant, sc), no_input=True)
             continue
-        # --- singles
-        cases = [(k, 0) for k in range(1, N + 1)]
-        lines = ["fa %s %d 0" % (sc, k) for k, _ in cases]
+        # --- corpus first (historic failing cases; k beyond N is simply not reached), then singles
+        cases = []
+        for ln in vlib.read_corpus("C18"):
+            f = ln.split()
+            if f[0] == "fa" and f[1] == sc and (int(f[2]), int(f[3])) not in cases and \
+                    (int(f[3]) or int(f[2]) > N):
+                cases.append((int(f[2]), int(f[3])))
+        ncorpus = len(cases)
+        cases += [(k, 0) for k in range(1, N + 1)]
+        lines = ["fa %s %d %d" % (sc, k, k2) for k, k2 in cases]
         outs = run_chunks(exe, lines, env=env)
         ds = [parse_result(o) for o in outs]
         # --- pairs: k2 ranges over the attempts of the run that failed k1
         if pairs:
             plines = []
-            for (k1, _), d in zip(list(cases), ds):
+            for (k1, kk2), d in zip(list(cases), ds):
+                if kk2 or k1 > N:
+                    continue
                 n1 = int(d["n"]) if d["n"].isdigit() else 0
                 for k2 in range(k1 + 1, n1 + 1):
+                    if (k1, k2) in cases:
+                        continue
                     cases.append((k1, k2))
                     plines.append("fa %s %d %d" % (sc, k1, k2))
             pouts = run_chunks(exe, plines, env=env)
@@ -270,7 +281,7 @@ def enumerate_variant(run, model, exe, variant, scen_list, pairs, stats, env=Non
             run.count("%s %s" % (variant, ln), nontriv)
             ninj += 1 if injected else 0
             # replay stability: the k-th attempt of this run is the k-th attempt of the clean run
-            if k2 == 0 and notices:
+            if k2 == 0 and notices and k1 <= N:
                 want = sites[k1 - 1].split(":")
                 got = notices[0]
                 if (want[0], int(want[1]), int(want[2]), want[3]) != \
@@ -280,7 +291,7 @@ def enumerate_variant(run, model, exe, variant, scen_list, pairs, stats, env=Non
                                                                       got["type"], got["size"]),
                                   "case: %s\n%s\n" % (ln, d["raw"][:2000]),
                                   tag="unstable_%s_%s_%d" % (variant, sc, k1), no_input=True)
-            if k2 == 0 and not notices and d["status"] == "OK":
+            if k2 == 0 and not notices and d["status"] == "OK" and k1 <= N:
                 run.violation("fault %d of scenario %s was never injected although the clean run makes "
                               "%d attempts" % (k1, sc, N), "case: %s\n%s\n" % (ln, d["raw"][:2000]),
                               tag="noinj_%s_%s_%d" % (variant, sc, k1), no_input=True)
@@ -314,7 +325,7 @@ def enumerate_variant(run, model, exe, variant, scen_list, pairs, stats, env=Non
                      "res": d["res"][:600], "clean_res": c1["res"][:600]})
                 run.hist("failure_kind", kind)
             run.hist("site_type", MEMTAG[last["type"]] if last and last["type"] < len(MEMTAG) else "?")
-        info[variant] = {"N": N, "runs": len(cases), "exhaustive": True,
+        info[variant] = {"N": N, "runs": len(cases), "corpus_cases": ncorpus, "exhaustive": True,
                          "pairs": bool(pairs), "injected": ninj, "failing_runs": nfail}
         run.hist("scenario_runs", sc)
         if len(run.cov["samples"]) < 6:
@@ -354,13 +365,22 @@ def pdu_tie(run, model, exe):
     """coq/Fault/PduAtomic.v against coap_pdu_init/add_token/add_option/add_data under failure
     patterns: same return values, same accessor dump, same number of allocation attempts"""
     r = tie.rng_for(run, "fapdu")
-    lines = list(vlib.read_corpus("C18"))
-    lines = [ln for ln in lines if ln.startswith("fapdu ")]
+    lines = [ln for ln in vlib.read_corpus("C18") if ln.startswith("fapdu ")]
     n = 1500 if run.tier == "quick" else 30000
     for i in range(n):
         lines.append(gen_fault.gen_pdu_case(r))
+    # twin without faults for every case with an implicit Hop-Limit step (Proxy-Uri/-Scheme)
+    twins = {}
+    for ln in list(lines):
+        f = ln.split()
+        if f[6] != "-" and re.search(r" O (35|39) ", ln):
+            tw = " ".join(f[:6] + ["-"] + f[7:])
+            twins[ln] = tw
+            lines.append(tw)
     om, oc, crashes = tie.run_both(model, exe, lines)
+    impl = dict(zip(lines, oc))
     nbad = 0
+    nstrict = 0
     for ln, a, b in zip(lines, om, oc):
         nontriv = "0" in a.split(" ")[0] and "1" in a.split(" ")[0]
         run.count(ln, nontriv)
@@ -377,7 +397,24 @@ def pdu_tie(run, model, exe):
             if nbad <= 3:
                 run.violation(bad, "case: %s\nmodel: %s\nimpl : %s\n" % (ln, a, b), tag="pdu%d" % nbad,
                               no_input=(bad.startswith("PDU builder differs")))
-    run.cov["pdu_tie"] = {"cases": len(lines), "disagreements": nbad}
+            continue
+        # the implementation-only oracle for the strict form: all operations succeeded as in the
+        # fault-free run, but the message is a different one
+        if ln in twins:
+            t = impl[twins[ln]]
+            if b.split(" ")[0] == t.split(" ")[0] and "0" not in b.split(" ")[0][5:] and \
+                    b.split("built=")[1] != t.split("built=")[1]:
+                nstrict += 1
+                f = run.match_known(lambda f: f.get("signature", {}).get("api") == "coap_add_option" and
+                                    f["signature"].get("step") == "implicit Hop-Limit")
+                if f:
+                    run.known(f, "e.g. %s -> %s (fault-free: %s)" % (ln, b.split("built=")[1], t.split("built=")[1]))
+                else:
+                    run.violation("coap_add_option succeeded under an allocation failure with a message "
+                                  "that differs from the fault-free one",
+                                  "case: %s\nimpl with the fault : %s\nimpl without fault: %s\n" % (ln, b, t),
+                                  tag="pdustrict%d" % nstrict)
+    run.cov["pdu_tie"] = {"cases": len(lines), "disagreements": nbad, "strict_atomicity_exceptions": nstrict}
     if lines:
         run.sample({"case": lines[-1], "impl": oc[-1][:300]}, limit=8)
 
